@@ -19,9 +19,11 @@ LEVEL = "proof"
 LEVEL_TEXT = ("Lean 4 theorems for all graphs (any number of packages, targets, aliases): the model of BuildNodeMapFromPackages → BuildGraph "
               "(edges, self-loop, unknown label, FindCycle, detectOutputConflicts) → CheckTargetConstraints accepts exactly the graphs that are "
               "valid in the sense of the declarative predicate Spec.valid (the property's list of defects), and build/check reach the executor "
-              "only after accept. The model is tied to the code on every run by an exhaustive differential run over all graphs of up to 3 (quick) / "
-              "4 (thorough) nodes, a grid of path spellings, random graphs up to 40 nodes, a direct differential run of filepath.Clean/Join and "
-              "dag.FindCycle, a model-independent reference validator, and a CLI-level run of grog check / grog build on generated workspaces.")
+              "only after accept; the verdict does not depend on enumeration order; the memo table of the ancestor search never changes an answer. "
+              "The model is tied to the code on every run by an exhaustive differential run over all graphs of up to 3 nodes (quick: plus 20000 "
+              "sampled 4-node graphs; thorough: all 320000 and 80000 sampled 5-node graphs), a grid of path spellings, random graphs up to 40 nodes, "
+              "direct differential runs of filepath.Clean/Join, dag.FindCycle (exact cycle), the unexported path predicates and the memoised "
+              "ancestor search, a model-independent reference validator, and grog check / grog build on fixed and generated workspaces.")
 LEVEL_NOTE = ("Trusted: Lean kernel; axioms propext/Classical.choice/Quot.sound; the correspondence harness (sampled beyond the exhaustive bound). "
               "Paths are compared lexically (as the code does): symlinks and re-entering the workspace root by its own name are not identified. "
               "The groups of the per-tag / per-path maps of detectOutputConflicts are visited in list order by the model (map order in Go); a theorem shows the memo table never changes an answer. Loader-level errors (unparsable labels, "
@@ -259,7 +261,7 @@ def tests_without_command(g):
 # generators
 # ------------------------------------------------------------------------------------------------
 
-def small_graphs(n, outs_mode):
+def small_graphs(n, outs_mode, allow_self=True):
     """all graphs with exactly n nodes n0..n{n-1} in the root package: every node a target or an alias, every
     dependency set over the n labels (self included) for targets, every actual for aliases. outs_mode 'same': every
     target writes file x (so acceptance depends on the targets being totally ordered); 'distinct': own file."""
@@ -268,10 +270,13 @@ def small_graphs(n, outs_mode):
     for i in range(n):
         opts = []
         for mask in range(1 << n):
+            if not allow_self and mask >> i & 1:
+                continue
             deps = [labels[j] for j in range(n) if mask >> j & 1]
             opts.append(("t", T("", "n%d" % i, deps, ["x" if outs_mode == "same" else "o%d" % i])))
         for j in range(n):
-            opts.append(("a", A("", "n%d" % i, labels[j])))
+            if allow_self or j != i:
+                opts.append(("a", A("", "n%d" % i, labels[j])))
         choices.append(opts)
     for combo in itertools.product(*choices):
         yield list(combo)
@@ -484,6 +489,10 @@ def run(ctx):
         four = rng.sample(four, 20000)
     for nodes in four:
         add("small4", nodes)
+    # all 4-node graphs without self-reference (these get past the edge loop: cycles, orderedness, conflicts)
+    for mode in ("same", "distinct"):
+        for nodes in small_graphs(4, mode, allow_self=False):
+            add("small4-noself", nodes)
     if not quick:
         # 5 nodes: a sample of the (32+5)^5 graphs per output regime
         for mode in ("same", "distinct"):
@@ -528,7 +537,7 @@ def run(ctx):
     for fam, gs in families.items():
         reqs += gs
         fam_of += [fam] * len(gs)
-    cov["rule"] = ("all graphs of 1..3 nodes (quick: plus 20000 sampled of the 320000 with 4 nodes; thorough: all) — every node a target or an "
+    cov["rule"] = ("all graphs of 1..3 nodes, all 29282 4-node graphs without self-reference (quick: plus 20000 sampled of the 320000 with 4 nodes; thorough: all, and 80000 sampled 5-node graphs) — every node a target or an "
                    "alias, every dependency set incl. self-reference, two output regimes (all targets write one file / distinct files), all "
                    "orderings of the node list for <= 3 nodes; a grid of %d output spellings x %d package nestings x {unordered, dependency, "
                    "dependency through an alias} and single targets with two outputs; %d input spellings; workspace roots; test/testonly "
@@ -551,6 +560,7 @@ def run(ctx):
 
     # --- oracle on the real code -------------------------------------------------------------------------
     kinds_seen, accepted, nontrivial, oracle_fail, other_msgs = {}, 0, set(), 0, 0
+    sizes, ref_kinds, alias_graphs, multi_defect = {}, {}, 0, 0
     bad = []
     for g, fam, x, y in zip(reqs, fam_of, impl_out, model_out):
         if "error" in x or "panic" in x:
@@ -561,6 +571,12 @@ def run(ctx):
             nontrivial.add(json.dumps(g["pkgs"], sort_keys=True))
         ref = reference_defects(g)
         refk = {k for k, _ in ref}
+        b = "%d" % len(ns) if len(ns) <= 5 else ("6-10" if len(ns) <= 10 else ("11-20" if len(ns) <= 20 else "21-40+"))
+        sizes[b] = sizes.get(b, 0) + 1
+        alias_graphs += any(k == "a" for k, _ in ns)
+        multi_defect += len(refk) > 1
+        for k in refk or {"none"}:
+            ref_kinds[k] = ref_kinds.get(k, 0) + 1
         acc = x.get("verdict") == "accept"
         accepted += acc
         for k in x.get("kinds", []) if not acc else ["accept"]:
@@ -597,6 +613,10 @@ def run(ctx):
     cov["rejected"] = len(reqs) - accepted
     cov["impl_verdict_kinds"] = kinds_seen
     cov["unclassified_messages"] = other_msgs
+    cov["graph_sizes_nodes"] = sizes
+    cov["graphs_with_aliases"] = alias_graphs
+    cov["graphs_with_several_defect_kinds"] = multi_defect
+    cov["reference_defect_kinds"] = ref_kinds
     cov["oracle_failures"] = oracle_fail
     for fam in ("small3", "spelling", "random", "testdep"):
         for g, f, x in zip(reqs, fam_of, impl_out):
